@@ -15,7 +15,7 @@ RULE = ('deals from Hypothesis (sorted deck + drawn transpositions => voids/long
         'hands_parser(convert_deal()) each equal the original four hands; to_pbn text == independent canonical '
         'renderer (S.H.D.C, ranks high to low, void empty, unknown hand "-"); binary vectors are 52 slots of 0/1 with '
         'slot = card index; JSON lists ascend by card index; the random dealer returns 4 disjoint 13-card hands '
-        'covering the pack; every decoder is also called a second time after the first result was modified (cards added and removed, as the playing phases do): hands of one deal must not alias each other and the second decode must equal the original. evaluations = round trips. Non-trivial = deal with >=1 void or a partial deal, written '
+        'covering the pack; every decoder is also called a second time after the first result was modified (cards added and removed, as the playing phases do): hands of one deal must not alias each other and the second decode must equal the original. Concurrent use: pairs of calls (two random dealers; two PBN round trips; the same partial deal text decoded twice with the result modified in between; tuple and numpy round trips) run as tasks of the schedule-owning kernel with a scheduling point at every source line of hands.py, on a freshly imported package per schedule; ALL schedules with <= 1 deviation from call-after-call execution are enumerated and each call must return what it returns alone (the dealer: a valid deal). evaluations = round trips + schedules. Non-trivial = deal with >=1 void or a partial deal, written '
         'from a first seat other than N; distinct by (deal, first seat).')
 ASSUMPTIONS = ['vf/model/pbn.py renders the PBN 2.1 deal notation']
 
@@ -24,7 +24,9 @@ DTYPES = ['int32', 'int64', 'int8', 'uint8', 'float32', 'bool', 'float64', 'int1
 
 def plan(tier):
     n, per = (12, 600) if tier == 'quick' else (16, 12000)
-    return [{'kind': 'deals', 'n': per} for _ in range(n)] + [{'kind': 'random_dealer', 'n': 300 if tier == 'quick' else 20000}]
+    of = 8
+    return [{'kind': 'deals', 'n': per} for _ in range(n)] + [{'kind': 'random_dealer', 'n': 300 if tier == 'quick' else 20000}] + \
+        [{'kind': 'concurrent', 'bound': 1, 'shard': i, 'of': of} for i in range(of)]
 
 
 def _same(h, hands):
@@ -125,11 +127,77 @@ def _random_dealer(k, stats=None):
         stats.nt(['r', hs])
 
 
+# ---------------------------------------------------------------------------------------
+# concurrent use (line-level schedules, vf/props/_concurrent.py)
+
+PBN1 = 'N:4.KJ32.842.AQ743 JT987.Q876.AK5.2 AK532.T.JT6.T985 Q6.A954.Q973.KJ6'
+PBN2 = 'E:KQ9752.K74.8742. T.A93.QT93.KJ873 J6.T852.AJ65.QT9 A843.QJ6.K.A6542'
+PBN3 = 'S:AKQJT98765432... .AKQJT98765432.. - -'
+
+
+def _plain(B, H):
+    return tuple(tuple(sorted(int(c) for c in H[p])) for p in B.Player)
+
+
+def _p_dealers(B):
+    return [lambda: _plain(B, B.Hands.generate_random_hands())] * 2
+
+
+def _p_pbn(B):
+    return [lambda: B.Hands.convert_pbn(PBN1).to_pbn(B.Player.S), lambda: B.Hands.convert_pbn(PBN2).to_pbn(B.Player.W)]
+
+
+def _p_same_text(B):
+    def f():
+        H = B.Hands.convert_pbn(PBN3)
+        H[B.Player.W].add(B.Card(2, B.Suit.C))            # decoded hands are the caller's to change
+        return _plain(B, B.Hands.convert_pbn(PBN3)), H.to_pbn(B.Player.S)
+    return [f, lambda: _plain(B, B.Hands.convert_pbn(PBN3))]
+
+
+def _p_vectors(B):
+    def a():
+        H = B.Hands.convert_pbn(PBN1)
+        return _plain(B, B.Hands.convert_binary(H.to_binary())), _plain(B, B.Hands.convert_np_binary(H.to_np_binary()))
+
+    def b():
+        H = B.Hands.convert_pbn(PBN2)
+        return _plain(B, B.Hands.convert_np_binary(H.to_np_binary())), _plain(B, B.Hands.convert_binary(H.to_binary()))
+    return [a, b]
+
+
+def _valid_deals(res, expected):
+    for i, r in enumerate(res):
+        if not (isinstance(r, tuple) and len(r) == 4 and all(len(h) == 13 for h in r) and sorted(c for h in r for c in h) == list(range(52))):
+            return ('the random dealer returned something that is not four disjoint 13-card hands covering the pack', {'call': i, 'got': repr(r)[:300]})
+    return None
+
+
+def concurrent_programs():
+    from vf.props import _concurrent as CC
+    tr = ('/bridge_env/hands.py',)
+    return {'two random dealers': (_p_dealers, _valid_deals, tr), 'two PBN round trips': (_p_pbn, CC.same_as_alone, tr),
+            'same partial deal text decoded twice': (_p_same_text, CC.same_as_alone, tr),
+            'binary and numpy round trips': (_p_vectors, CC.same_as_alone, tr)}
+
+
+def run_concurrent(spec, stats):
+    from vf.props import _concurrent as CC
+    try:
+        for name, (prog, oracle, tr) in concurrent_programs().items():
+            CC.explore(name, prog, oracle, stats, bound=spec['bound'], orders=(0, 1), trace=tr, shard=spec['shard'], of=spec['of'])
+    except Violation as v:
+        return [v]
+    return []
+
+
 EMPTY = st.one_of(st.just(frozenset()), st.just(frozenset()), st.frozensets(st.integers(0, 3), min_size=1, max_size=4))
 
 
 def run_shard(spec, seed, tier, stats):
     shrink = tier == 'thorough'
+    if spec['kind'] == 'concurrent':
+        return run_concurrent(spec, stats)
     if spec['kind'] == 'deals':
         v = run_hypothesis(lambda owner, empty, dtype: _deal(owner, empty, dtype, stats),
                            {'owner': PL.DEAL, 'empty': EMPTY, 'dtype': st.sampled_from(DTYPES)}, seed, spec['n'], shrink)
@@ -140,6 +208,9 @@ def run_shard(spec, seed, tier, stats):
 
 def replay(rec):
     c = rec['case']
+    if 'concurrent_program' in c:
+        from vf.props import _concurrent as CC
+        return CC.replay(rec, concurrent_programs())
     try:
         if 'random_seed' in c:
             _random_dealer(c['random_seed'])
